@@ -305,6 +305,12 @@ def _cat() -> List[Edit]:
         E("C08", "model-error-overload-not-skipped", "signature.py", "            if ret.is_error:\n                continue\n            elif ret.remaining_arguments is not None:", "            if ret.remaining_arguments is not None:", "BREAK", "overload-model::"),
         E("C08", "model-union-rets-dropped-on-clean-match", "signature.py", "            if clean_ret is not None:\n                rets = [*union_rets, clean_ret]", "            if clean_ret is not None:\n                rets = [clean_ret]", "BREAK", "the type contains each member's own result"),
         E("C08", "keep-model-sigs-loop-form", "signature.py", "        last = len(sigs) - 1\n        for i, sig in enumerate(sigs):", "        last = len(sigs) - 1\n        for i in range(len(sigs)):\n            sig = sigs[i]", "KEEP"),
+        E("C14", "model-unite-keeps-nested-union", "value.py", "        if isinstance(value, MultiValuedValue):\n            subvals = value.vals\n        elif isinstance(value, AnnotatedValue) and isinstance(\n            value.value, MultiValuedValue\n        ):", "        if False:\n            subvals = value.vals\n        elif isinstance(value, AnnotatedValue) and isinstance(\n            value.value, MultiValuedValue\n        ):", "BREAK", "union-model::"),
+        E("C14", "model-unite-no-dedup", "value.py", "                if subval not in hashable_vals:\n                    hashable_vals[subval] = None\n            except Exception:\n                unhashable_vals.append(subval)\n    existing = list(hashable_vals) + unhashable_vals", "                unhashable_vals.append(subval)\n            except Exception:\n                unhashable_vals.append(subval)\n    existing = list(hashable_vals) + unhashable_vals", "BREAK", "union-model::equal-alternatives-merged"),
+        E("C14", "model-unreachable-any-kept", "value.py", "    if num_unreachable:\n        existing = [val for i, val in enumerate(existing) if not reachabilities[i]]", "    if False:\n        existing = [val for i, val in enumerate(existing) if not reachabilities[i]]", "BREAK", "union-model::commutative"),
+        E("C14", "model-single-value-wrapped-in-union", "value.py", "    if num == 1:\n        return existing[0]\n    else:\n        return MultiValuedValue(existing)", "    return MultiValuedValue(existing)", "BREAK", "identity-and-singleton"),
+        E("C14", "model-empty-unite-returns-any", "value.py", "    if not values:\n        return NO_RETURN_VALUE\n    # Make sure order is consistent", "    if not values:\n        return AnyValue(AnySource.inference)\n    # Make sure order is consistent", "NOALARM"),
+        E("C14", "model-annotated-union-loses-metadata", "value.py", "            subvals = [\n                annotate_value(subval, value.metadata) for subval in value.value.vals\n            ]\n        else:\n            subvals = [value]\n        for subval in subvals:\n            try:", "            subvals = list(value.value.vals)\n        else:\n            subvals = [value]\n        for subval in subvals:\n            try:", "BREAK", "union-model::"),
         E("C16", "keep-reversed-sorted", "node_visitor.py", "lines_to_remove = sorted(lines_to_remove, reverse=True)", "lines_to_remove = list(reversed(sorted(lines_to_remove)))", "KEEP"),
         E("C17", "keep-regex-class-order", "format_strings.py", "(?P<conversion_type>[diouxXeEfFgGcrs%ba])", "(?P<conversion_type>[abcdeEfFgGiorsuxX%])", "KEEP"),
         E("C18", "keep-sort-key-via-locals", "options.py", "        return (\n            not self.from_command_line,  # command line options first\n            self.priority,  # lower priority number first\n            -len(self.applicable_to),  # longest options first\n        )", "        return (\n            not self.from_command_line,\n            self.priority,\n            -len(self.applicable_to),\n        )", "KEEP"),
